@@ -182,6 +182,12 @@ func DecodeClaimsFromCBOR(buf []byte) (IClaims, error) {
 		Profile string `cbor:"265,keyasint"`
 	}{}
 
+	// CBOR null and undefined decode into any Go value as a no-op, so they
+	// would pass for an (empty) claims-set: the claims must be a map.
+	if len(buf) == 1 && (buf[0] == 0xf6 || buf[0] == 0xf7) {
+		return nil, errors.New("CBOR claims must be a map, found null/undefined")
+	}
+
 	err := dm.Unmarshal(buf, &selector)
 	if err != nil {
 		return nil, err
